@@ -88,6 +88,13 @@ class SchedProp(Prop):
         if 'error' in raw and raw.get('stage') == 'load':
             self.rejected = getattr(self, 'rejected', 0) + 1
             return True
+        if 'error' in raw and raw.get('stage') == 'infra':
+            # start-up / teardown timeouts of the real scheduler on an overloaded machine: never a verdict
+            self.infra = getattr(self, 'infra', 0) + 1
+            if self.infra > 25:
+                raise Infra(f'{self.infra} scheduler runs hit start-up/teardown timeouts (machine overloaded?): '
+                            + raw['error'].strip().splitlines()[-1][:200])
+            return True
         return False
 
     def driver_input(self, inp, raw):
